@@ -304,6 +304,37 @@ theorem C01_load_file_type (r : LoadRequest) (d : Doc) (dir : Option PPath) (c :
             exact C01_same_type_load d dir c2 hl2
           · cases hl
 
+/-- `io.save` reaches the document conversion exactly when the format is `aoef`, given or inferred
+    from a `.json` suffix; every refusal is a `ValueError` -/
+theorem C01_save_gate_iff (r : SaveRequest) :
+    (saveGate r = .ok () ↔ (r.format = some "aoef" ∨ (r.format = none ∧ r.suffixJson = true)))
+    ∧ (saveGate r ≠ .ok () → saveGate r = .error .invalid) := by
+  rcases r with ⟨sj, fmt⟩
+  cases sj <;> rcases fmt with _ | f <;>
+    simp [saveGate, bind, Except.bind, pure, Except.pure] <;>
+    (repeat' split) <;> simp_all
+
+/-- a file that `io.save` accepted is accepted by `io.load` with the same `format` argument exactly
+    when it has the `.json` suffix (an explicit `format="aoef"` writes to any name, the loader insists
+    on the suffix) and carries the supported version -/
+theorem C01_save_load_gate (suffixJson : Bool) (format : Option String) (docType version : String)
+    (hs : saveGate ⟨suffixJson, format⟩ = .ok ()) :
+    loadGate ⟨true, suffixJson, format, none, version, docType⟩ = .ok () ↔
+      suffixJson = true ∧ version = AOEF_VERSION := by
+  have h := (C01_save_gate_iff ⟨suffixJson, format⟩).1.1 hs
+  rw [C01_load_gate_iff]
+  constructor
+  · intro h'; exact ⟨h'.2.2.1, h'.2.2.2.2⟩
+  · intro h'
+    have hf : format = none ∨ format = some "aoef" := by
+      rcases h with h | h
+      · exact Or.inr h
+      · exact Or.inl h.1
+    exact ⟨hf, rfl, h'.1, Or.inl rfl, h'.2⟩
+example : saveGate ⟨false, some "aoef"⟩ = .ok () ∧ saveGate ⟨false, none⟩ = .error .invalid
+    ∧ saveGate ⟨true, some "other"⟩ = .error .invalid ∧ saveGate ⟨true, none⟩ = .ok () := by decide
+example : loadGate ⟨true, false, some "aoef", none, "1.1.0", "dataset"⟩ = .error .invalid := by decide
+
 example : loadGate ⟨true, true, none, some "dataset", "1.1.0", "dataset"⟩ = .ok () := by decide
 example : loadGate ⟨true, true, none, some "recording_set", "1.1.0", "dataset"⟩ = .error .invalid := by decide
 example : loadGate ⟨false, true, some "aoef", none, "1.1.0", "dataset"⟩ = .error .notFound := by decide
